@@ -1,6 +1,7 @@
 import Mdsort.Proofs.Mime
 import Mdsort.Proofs.AttachmentCond
 import Mdsort.Proofs.ExecStdin
+import Mdsort.Proofs.ExecSeqEx
 
 /-!
 # C11 - body and attachment conditions operate on the decoded MIME content
@@ -321,5 +322,54 @@ example :
     (runOracle C11_orcFail (messageGetFd C11_penv C11_ms (some C11_b64part) false) 0 []).1 = none ∧
     (runOracle C11_orcFail (messageGetFd C11_penv C11_ms (some C11_b64part) false) 0 []).2.getLast? = some (.close 7, .ok 0) := by
   decide +kernel
+
+/-! ## (package ce10) `exec stdin body` after rewriting actions of the same action list
+
+Vocabulary: `Spec/ExecSeq.lean` (see the block of `C13_exec_stdin_sees_current` in Props/C13.lean):
+`uptoFork` = `matches_exec` up to the fork of one exec entry, run against arbitrary POSSIBLE results
+with the abstract file system threaded through (`runW`, `PossibleRun`). -/
+
+/-- **`exec stdin body` hands over the decoded body of the CURRENT in-memory message, whatever the
+action list did before.**  For every list `pre` before the entry, every state and world in which
+the message is open, every oracle whose results are possible: if the run reaches the fork of `mh`
+(`exec stdin body`, of the message or - inside an attachment block - of a part) with descriptor
+`fd`, then the body of the target (`message_get_body`: the message as it is in memory after
+`matches_interpolate`, resp. the part) is decodable, and in the world at that fork `fd` is a handle
+on a temporary file OF ITS OWN - not the file the message's descriptor refers to, so no offset of
+the message file plays any role - whose data is exactly that decoded body (as a C string), and the
+last call before the fork is a successful `lseek(fd, 0, SEEK_SET)`. -/
+theorem C11_exec_stdin_body_after_rewrite (env : PEnv) (pre : MatchList) (mh : Match) (st : ExecSt) (orig : Bytes) (w : World)
+    (orc : Nat → Call → Res) (i : Nat) (hb : mh.execBody = true)
+    (hopen : Spec.MsgOpen w st orig) (hposs : Spec.PossibleRun orc (Spec.uptoFork env pre mh st) w i)
+    (st' : ExecSt) (fd : Handle) (hres : (Spec.runW orc (Spec.uptoFork env pre mh st) w i).1 = .fork st' fd) :
+    ∃ body, getBody ((Spec.execPart mh st.ms).getD st.ms.msg) = some body ∧
+      Spec.BodyOn (Spec.runW orc (Spec.uptoFork env pre mh st) w i).2 st' fd body :=
+  Proofs.ExecSeq.wpo_sound orc (Proofs.ExecSeq.spec_uptoFork_body env pre mh st hb hopen) i hposs st' fd hres
+
+/-- ... and that body is the one the specification decodes (`C11_body`: Content-Transfer-Encoding of the
+entity, text/plain preferred for multipart/alternative), under the hypothesis of `C11_body`. -/
+theorem C11_exec_stdin_body_after_rewrite_spec (env : PEnv) (pre : MatchList) (mh : Match) (st : ExecSt) (orig : Bytes) (w : World)
+    (orc : Nat → Call → Res) (i : Nat) (hb : mh.execBody = true)
+    (hbd : Proofs.BoundaryOk (Gen.mimeDepthLimit + 1) ((Spec.execPart mh st.ms).getD st.ms.msg) = true)
+    (hopen : Spec.MsgOpen w st orig) (hposs : Spec.PossibleRun orc (Spec.uptoFork env pre mh st) w i)
+    (st' : ExecSt) (fd : Handle) (hres : (Spec.runW orc (Spec.uptoFork env pre mh st) w i).1 = .fork st' fd) :
+    ∃ body, Spec.decodedBody entity Gen.mimeDepthLimit ((Spec.execPart mh st.ms).getD st.ms.msg) = some body ∧
+      Spec.BodyOn (Spec.runW orc (Spec.uptoFork env pre mh st) w i).2 st' fd body := by
+  obtain ⟨body, h1, h2⟩ := C11_exec_stdin_body_after_rewrite env pre mh st orig w orc i hb hopen hposs st' fd hres
+  exact ⟨body, by rw [← C11_body _ hbd]; exact h1, h2⟩
+
+/-- Non-vacuity (evaluated run, `Proofs/ExecSeqEx.lean`): `label exec stdin body` on `A:b\n\nx\n`, every `write`
+short: the run reaches the fork with descriptor 8 on a temporary file holding the body `x\n`. -/
+example : ∃ st', (Spec.runW Proofs.ExecSeq.exOrc1 (Spec.uptoFork Proofs.ExecSeq.exEnv [Proofs.ExecSeq.exLabel]
+      Proofs.ExecSeq.exBody Proofs.ExecSeq.exSt) Proofs.ExecSeq.exW 0).1 = .fork st' 8 ∧
+    Spec.BodyOn (Spec.runW Proofs.ExecSeq.exOrc1 (Spec.uptoFork Proofs.ExecSeq.exEnv [Proofs.ExecSeq.exLabel]
+      Proofs.ExecSeq.exBody Proofs.ExecSeq.exSt) Proofs.ExecSeq.exW 0).2 st' 8 (ofString "x\n") := by
+  obtain ⟨st', h⟩ := Proofs.ExecSeq.forkFd_eq Proofs.ExecSeq.ex1b_fork
+  refine ⟨st', h, ?_⟩
+  obtain ⟨body, h1, h2⟩ := C11_exec_stdin_body_after_rewrite _ _ _ _ _ _ _ 0 rfl Proofs.ExecSeq.ex_open
+    Proofs.ExecSeq.ex1b_possible st' 8 h
+  rw [Proofs.ExecSeq.ex1b_body] at h1
+  cases h1
+  exact h2
 
 end Mdsort.Props
